@@ -96,7 +96,11 @@ Inductive case :=
 (* quoted words inside a value list and a fixed-order list *)
 | CQList (k v v2 ck cv cv2 gk gv gv2 : bytes) (flc flg : obs filter) (pfc pfg : obs (list pfield))
 (* bare words: w:v as filter, w as projection, k@(w v) *)
-| CBare (w v : bytes) (t : oracle) (fo : obs filter) (po xo : obs (list pfield)).
+| CBare (w v : bytes) (t : oracle) (fo : obs filter) (po xo : obs (list pfield))
+(* structured expressions: the generator made the tree / field list [want]
+   first and printed it in the documented syntax as [q] *)
+| CSFilter (q : bytes) (t : oracle) (want : filter) (fp : obs filter) (nf : obs unit)
+| CSProj (q : bytes) (want : list pfield) (pp : obs (list pfield)) (np : obs unit).
 
 Definition decode (s : sx) : option case :=
   match s with
@@ -117,6 +121,15 @@ Definition decode (s : sx) : option case :=
       do t <- as_list (as_pair as_b as_bool) t;
       do fo <- dec_fobs fo; do po <- dec_pobs po; do xo <- dec_pobs xo;
       Some (CBare w v t fo po xo)
+  | SL [SZ 5; SB q; t; want; fp; nf] =>
+      do t <- as_list (as_pair as_b as_bool) t;
+      do want <- dec_filter 200 want;
+      do fp <- dec_fobs fp; do nf <- dec_uobs nf;
+      Some (CSFilter q t want fp nf)
+  | SL [SZ 6; SB q; want; pp; np] =>
+      do want <- as_list dec_field want;
+      do pp <- dec_pobs pp; do np <- dec_uobs np;
+      Some (CSProj q want pp np)
   | _ => None
   end.
 
@@ -183,6 +196,10 @@ Definition corr_ok (c : case) : bool :=
   | CBare w v t fo po xo =>
       obs_eq filter_eqb (pf t (colon w v)) fo && obs_eq fields_eqb (pp_ t w) po
       && obs_eq fields_eqb (pp_ t (fixed_text (bs "k") w v)) xo
+  | CSFilter q t want fp nf =>
+      obs_eq filter_eqb (pf t q) fp && obs_eq_u (nf_ t q) nf
+  | CSProj q want pp np =>
+      obs_eq fields_eqb (pp_ [] q) pp && obs_eq_u (np_ [] q) np
   end.
 
 Definition to_cfg (l : list (bytes * bytes * bool)) : list cfg :=
@@ -190,6 +207,33 @@ Definition to_cfg (l : list (bytes * bytes * bool)) : list cfg :=
 
 Definition special_key (k : bytes) : bool :=
   beq k key_unit || beq k key_config || match k with [] => true | _ => false end.
+
+(** offsets of the terms of a filter tree that the semantic layer must refuse:
+    the key .config and the empty key *)
+Fixpoint bad_terms (x : filter) : list nat :=
+  match x with
+  | FMatch k _ off => if beq k key_config || is_nil k then [off] else []
+  | FAnd l | FOr l => flat_map bad_terms l
+  | FNot y => bad_terms y
+  end.
+
+(** offsets at which a projection field list must be refused: the key of a
+    .unit or empty-key field, the order of an unknown order, of a fixed order
+    without values and of a fixed order on .config *)
+Definition bad_fields (l : list pfield) : list nat :=
+  flat_map (fun p =>
+    (if negb (known_order (pf_order p))
+        || (beq (pf_order p) ord_fixed && (is_nil (pf_fixed p) || beq (pf_key p) key_config))
+     then [pf_ooff p] else [])
+    ++ (if beq (pf_key p) key_unit || is_nil (pf_key p) then [pf_koff p] else [])) l.
+
+(** accepted when nothing is wrong; else a syntax error positioned at one of
+    the offending terms (and never a panic, a hang or another kind of error) *)
+Definition rejected_at (bad : list nat) (o : obs unit) : bool :=
+  match bad with
+  | [] => is_ok o
+  | _ => match o with OErr z => existsb (fun off => Z.eqb (Z.of_nat off) z) bad | _ => false end
+  end.
 
 (** specification predicates on the implementation's observed behaviour *)
 Definition prop_ok (c : case) : bool :=
@@ -265,6 +309,16 @@ Definition prop_ok (c : case) : bool :=
       && (if bare_safe false w && bare_safe false v
           then match xo with OOk l => fields_eqb l [mkField (bs "k") ord_fixed [w; v] 0 2] | _ => false end
           else true)
+  | CSFilter q t want fp nf =>
+      (* the printed tree parses, and denotes exactly the strings and the
+         structure it was printed from (quoted keys and values anywhere in an
+         AND sequence, in parentheses, under '-', in value lists) *)
+      match fp with OOk x => filter_eqb x want | _ => false end
+      (* .config / the empty key anywhere in it: refused cleanly, at that term *)
+      && rejected_at (bad_terms want) nf
+  | CSProj q want pp np =>
+      match pp with OOk l => fields_eqb l want | _ => false end
+      && rejected_at (bad_fields want) np
   end.
 
 Definition run_case (s : sx) : N :=
